@@ -4,7 +4,10 @@
 (*                                                                         *)
 (* Abstract document: a Response root with an optional root signature and  *)
 (* 0..MaxKids "kids".  A kid is an assertion-shaped element described by   *)
-(*   c     content identity: GA1, GA2 (IdP-issued), FA (forged)            *)
+(*   c     content identity: GA1, GA2 (IdP-issued), FA (forged), GA1adv    *)
+(*         (IdP-issued: GA1 carrying, inside its Advice, a second          *)
+(*         assertion GA2 with the IdP's own signature -- SAML allows       *)
+(*         assertions as evidence there; the caller sees it as GA1)        *)
 (*   sig   none | own (the IdP's enveloped signature over exactly this     *)
 (*         content) | copied (the IdP's signature block lifted from the    *)
 (*         other genuine assertion) | att (attacker key, attacker cert)    *)
@@ -29,12 +32,14 @@ CONSTANTS MaxKids,      \* number of kid slots
           Slot2Places,  \* places allowed in slots after the first (bounds the product)
           Slot2Sigs     \* signature states allowed in slots after the first
 
-Contents == {"GA1", "GA2", "FA"}
-Genuine  == {"GA1", "GA2"}
+Contents == {"GA1", "GA2", "FA", "GA1adv"}
+Genuine  == {"GA1", "GA2", "GA1adv"}
+\* what the caller can tell apart (the decoded assertion type has no Advice)
+Ident(c) == IF c = "GA1adv" THEN "GA1" ELSE c
 
-NatId(c) == CASE c = "GA1" -> "a1" [] c = "GA2" -> "a2" [] c = "FA" -> "f1" [] OTHER -> "c1"
+NatId(c) == CASE c = "GA1" -> "a1" [] c = "GA1adv" -> "a1" [] c = "GA2" -> "a2" [] c = "FA" -> "f1" [] OTHER -> "c1"
 KidId(k) == IF k.id = "own" THEN NatId(k.c) ELSE k.id
-Other(c) == IF c = "GA1" THEN "GA2" ELSE "GA1"
+Other(c) == IF c \in {"GA1", "GA1adv"} THEN "GA2" ELSE "GA1"
 
 KidOK(k, places) ==
     /\ k.c \in Contents /\ k.sig \in KidSigs /\ k.place \in places
@@ -135,7 +140,7 @@ AfterDecrypt(in) == PlainIdx(in) \o EncIdx(in)
 \* the carrier of a nested kid is itself a direct assertion; nothing is decrypted
 SkipList(in) ==
    LET vis == SelectSeq(Idx(in), LAMBDA j : (in.kids[j].place = "direct" /\ ~in.kids[j].enc) \/ in.kids[j].place = "nested")
-   IN [i \in 1..Len(vis) |-> [c |-> IF in.kids[vis[i]].place = "nested" THEN "CA" ELSE in.kids[vis[i]].c, flag |-> FALSE]]
+   IN [i \in 1..Len(vis) |-> [c |-> IF in.kids[vis[i]].place = "nested" THEN "CA" ELSE Ident(in.kids[vis[i]].c), flag |-> FALSE]]
 
 DoStart(w) == IF w.cfg.skip THEN [w EXCEPT !.pc = "SkipDecode"] ELSE [w EXCEPT !.pc = "RootVerify"]
 
@@ -157,7 +162,7 @@ DoSignedDecrypt(w) == IF DecryptErr(w.in) THEN Rej(w, "enc_parent") ELSE [w EXCE
 DoSignedDecode(w) ==
    LET ord == SelectSeq(AfterDecrypt(w.in), LAMBDA j : w.in.kids[j].place = "direct")
    IN [w EXCEPT !.pc = "Validate",
-                !.list = [i \in 1..Len(ord) |-> [c |-> w.in.kids[ord[i]].c, flag |-> FALSE]],
+                !.list = [i \in 1..Len(ord) |-> [c |-> Ident(w.in.kids[ord[i]].c), flag |-> FALSE]],
                 !.out = [w.out EXCEPT !.rflag = TRUE]]
 
 \* l.341-349
@@ -171,8 +176,10 @@ DoUnsignedLoop(w) ==
         IF k.place = "wrapped" THEN Rej(w, "assertion_parent")
         ELSE IF k.place = "nested" THEN Rej(w, "missing")        \* the unsigned carrier is reached first
         ELSE LET r == KidVerify(k) IN
-             IF r = "ok" THEN [w EXCEPT !.i = w.i + 1, !.list = Append(w.list, [c |-> k.c, flag |-> TRUE])]
-             ELSE Rej(w, r)
+             IF r # "ok" THEN Rej(w, r)
+             \* the search goes on below a verified assertion: the evidence assertion in its Advice is not a child of the Response
+             ELSE IF k.c = "GA1adv" THEN Rej(w, "assertion_parent")
+             ELSE [w EXCEPT !.i = w.i + 1, !.list = Append(w.list, [c |-> k.c, flag |-> TRUE])]
 
 \* validate.go:136-245 -- every content in this family is profile-conformant, so
 \* only "at least one assertion" can fail
@@ -201,7 +208,7 @@ RootGenuine(in) == in.rsig = "gen" \/ (in.rsig = "lifted" /\ IsGR0(in))
 OwnSigned(k)    == k.sig = "own" /\ k.id = "own"
 DirectKids(in)  == { j \in DOMAIN in.kids : in.kids[j].place = "direct" }
 \* contents that sit directly under the root and are covered by a valid IdP signature
-Covered(in) == { in.kids[j].c : j \in { j2 \in DirectKids(in) : RootGenuine(in) \/ OwnSigned(in.kids[j2]) } }
+Covered(in) == { Ident(in.kids[j].c) : j \in { j2 \in DirectKids(in) : RootGenuine(in) \/ OwnSigned(in.kids[j2]) } }
 Count(seq, x) == Cardinality({ i \in DOMAIN seq : seq[i] = x })
 
 C01_OK(cfg, in, o) ==
@@ -209,7 +216,7 @@ C01_OK(cfg, in, o) ==
       /\ \A i \in DOMAIN o.assertions : o.assertions[i].c \in Covered(in)
       \* nothing is returned more often than it was carried directly under the root
       /\ \A c \in Contents : Cardinality({ i \in DOMAIN o.assertions : o.assertions[i].c = c })
-                               <= Cardinality({ j \in DirectKids(in) : in.kids[j].c = c })
+                               <= Cardinality({ j \in DirectKids(in) : Ident(in.kids[j].c) = c })
       \* an unsigned Response is accepted only if every assertion it carries is individually signed
       \* (a nested kid rides in an unsigned carrier assertion that is itself a direct child)
       /\ (~RootGenuine(in) => \A j \in DOMAIN in.kids : /\ in.kids[j].place # "nested"
@@ -224,7 +231,7 @@ Summary_OK(o) ==
 C04_OK(cfg, in, o) ==
    /\ (o.res = "accept" /\ o.rflag) => (RootGenuine(in) /\ ~cfg.skip)
    /\ (o.res = "accept") => \A i \in DOMAIN o.assertions :
-          o.assertions[i].flag => (~cfg.skip /\ \E j \in DirectKids(in) : in.kids[j].c = o.assertions[i].c /\ OwnSigned(in.kids[j]))
+          o.assertions[i].flag => (~cfg.skip /\ \E j \in DirectKids(in) : Ident(in.kids[j].c) = o.assertions[i].c /\ OwnSigned(in.kids[j]))
    /\ (o.res = "accept" /\ ~cfg.skip /\ ~o.rflag) => \A i \in DOMAIN o.assertions : o.assertions[i].flag
    /\ (o.info.res = "accept") => (o.info.iflag = o.rflag)
 
